@@ -1,5 +1,28 @@
-"""C07 - Rendering commutes with translation  (metadata; generators live here and/or in props/C07_*.py parts)"""
-CLAIMED = False   # set True by the owner once ./check C07 passes with real theorems
+"""C07 - Rendering commutes with translation  (metadata + implementation-side search; Coq parts in Properties/C07_*.v)"""
+from common import *
+
+CLAIMED = False  # until theorem parts are merged
 LEVEL = 'proof'
 LEVEL_TEXT = 'TODO'
 LEVEL_NOTE = 'TODO'
+RULE = ('search p_translate: every drawable family of the zoo (styled rectangle/circle/ellipse/rounded rectangle/triangle/line/polyline/arc/sector '
+        'with random fill/stroke/width/alignment, images, sub-images, text with 8 fonts x alignments x baselines x line heights x decorations) '
+        'x offsets d (small, across the axes, and up to +-2000): pixel map of x.translate(d) = shifted map of x, same for translate_mut, '
+        'bounding boxes (non-empty), points(), contains() over box+margin, pixels(), text next position, polyline moved by vertices vs translate.')
+
+
+def search(tier, rng):
+    n = 6000 if tier == 'quick' else 120000
+    # regression inputs of the repaired defect l first
+    yield 'p_translate 13 -11 tri 0 0 3 1 3 9 S 1 1 4 1'
+    yield 'p_translate -7 -9 poly 0 0 3 0 0 3 0 0 6 S 0 1 4 1'
+    for k in range(n):
+        fam = FAMILIES[k % len(FAMILIES)] if k % 3 else rng.choice(['tri', 'poly', 'line'])
+        r = rng.random()
+        if r < 0.5:
+            d = (rng.randrange(-40, 41), rng.randrange(-40, 41))
+        elif r < 0.8:
+            d = (rng.randrange(-7, 8), rng.randrange(-7, 8))
+        else:
+            d = (rng.randrange(-2000, 2001), rng.randrange(-2000, 2001))
+        yield J('p_translate', *d, zoo_case(rng, fam))
